@@ -34,9 +34,8 @@
 //        v5:… | v3:uat | weakhash | expired | olderthankey | future (the last four: Verify and CheckValidity both needed);
 //        same = the parsed packet is the same signature (all fields that enter verification) as the untouched one
 //   prop.pgpmsg keyblock <key> hash=<h> tag:<class> => <ok|refused> same=<0|1>     PublicKeyBlockParse + CheckSelfSignatures
-//   prop.pgpmsg sigtime … / filehash … / aead-nonces … / sig-emptyhash … / sym vla0-shape …     informational (see the report)
-// Options: --part sym|sig|pk ; --tier thorough ; probes run in a child process: --emptyhash (signature with an unknown hash
-//   algorithm octet), --vla0 (AEAD cipher text cut 32 octets behind a chunk), --bigchunk (chunk size octet 17);
+//   prop.pgpmsg sigtime … / filehash … / aead-nonces …     informational (aead-nonces appears only if nonces repeat)
+// Options: --part sym|sig|pk ; --tier thorough (includes one 8 MiB-chunk message, also run by --bigchunk);
 //   --dump-accepted, --probe-header (diagnostics for accepted signature packet changes)
 #include "common.hh"
 #include "libTMCG_config.h"
@@ -282,26 +281,11 @@ static AeadOut aead_enc(int skalgo, int aead, unsigned cs, const SOct &seskey_in
 		" => " + std::to_string(r.rc) + " " + hx(r.seskey) + " " + hx(r.iv) + " " + hx(r.out));
 	return r;
 }
-// SymmetricDecryptAEAD declares `unsigned char inbuf[len]` for the last chunk; when the input ends 32 octets after a
-// whole number of chunks and all of them verify, len is 0 (a zero-length variable length array, flagged by UBSan).
-// Inputs of that shape are left out (--vla0 runs one in a child process).
-static bool g_vla0_probe = false;
-static bool vla0_shape(size_t n, unsigned cs, size_t adlen)
-{
-	if (adlen == 4 || cs > 21 || n < 33) return false;
-	size_t stride = ((size_t)64 << cs) + 16;
-	return n - 32 >= stride && (n - 32) % stride == 0;
-}
+// an input that ends 32 octets behind a whole number of chunks leaves a last chunk of length 0 (before the repair of the
+// library: a zero-length variable length array); such shapes are part of every run (drop-final with a 16-octet last chunk)
 static AeadOut aead_dec(int skalgo, int aead, unsigned cs, const SOct &seskey, const Oct &iv, const Oct &ad, const Oct &in, const std::string &tag = "")
 {
 	AeadOut r; r.seskey = seskey; r.iv = iv;
-	if (vla0_shape(in.size(), cs, ad.size())) {
-		emit("prop.pgpmsg sym vla0-shape algo=" + std::to_string(skalgo) + " cs=" + std::to_string(cs) + " n=" + std::to_string(in.size()) + " tag:" + tag + " => skipped");
-		if (g_vla0_probe) { g_vla0_probe = false; fflush(stdout); pid_t pid = fork();
-			if (pid == 0) { Oct out; gcry_error_t e = PGP::SymmetricDecryptAEAD(in, seskey, (tmcg_openpgp_skalgo_t)skalgo, (tmcg_openpgp_aeadalgo_t)aead, (tmcg_openpgp_byte_t)cs, iv, ad, 0, out); _exit(e ? 11 : 10); }
-			int st = 0; waitpid(pid, &st, 0);
-			emit("prop.pgpmsg sym vla0-probe => " + (WIFSIGNALED(st) ? "signal " + std::to_string(WTERMSIG(st)) : "exit " + std::to_string(WEXITSTATUS(st)))); }
-		r.rc = 1; return r; }
 	logs_begin();
 	gcry_error_t ret = PGP::SymmetricDecryptAEAD(in, seskey, (tmcg_openpgp_skalgo_t)skalgo, (tmcg_openpgp_aeadalgo_t)aead, (tmcg_openpgp_byte_t)cs, iv, ad, 0, r.out);
 	logs_end();
@@ -413,7 +397,6 @@ static void msg_parse(const Oct &in, MsgView &v, const std::string &tag = "")
 }
 static bool msg_decrypt(const TMCG_OpenPGP_Message *m, const SOct &key, Oct &out, const std::string &tag = "")
 {
-	if (m->have_aead && vla0_shape(m->encrypted_message.size(), m->chunksize, 13)) { emit("prop.pgpmsg sym vla0-shape algo=" + std::to_string((unsigned)m->skalgo) + " cs=" + std::to_string((unsigned)m->chunksize) + " n=" + std::to_string(m->encrypted_message.size()) + " tag:" + tag + " => skipped"); return false; }
 	logs_begin(m->have_aead);
 	bool ok; { QuietCerr q; ok = m->Decrypt(key, 0, out); }
 	logs_end();
@@ -586,6 +569,8 @@ static int drv_pgpmsg_sym(const Opts &o, SplitMix &g)
 			}
 			for (int a : ciphers16) { size_t n = g.coin() ? cd + g.below(2 * cd) : 1 + g.below(cd); aead_case(g, a, aead, cs, n, true, 0, 10); }
 		}
+		// a last chunk of exactly 16 octets: dropping the final tag leaves 32 octets behind whole chunks (last chunk of length 0)
+		for (int aead = 1; aead <= 2; aead++) for (unsigned cs = 0; cs <= 1; cs++) { size_t cd = (size_t)64 << cs; aead_case(g, 9, aead, cs, cd + 16, true, 0, 8); aead_case(g, ciphers16[g.below(7)], aead, cs, 2 * cd + 16, true, 0, 8); aead_msg_case(g, 9, aead, cs, cd + 16 - 8, true, 0, 8); }
 		// every chunk-size octet the library accepts, with one short chunk; the octets it refuses
 		for (int aead = 1; aead <= 2; aead++) for (unsigned cs = 3; cs <= 21; cs++) aead_case(g, ciphers16[g.below(7)], aead, cs, 1 + g.below(200), true, 0, 6);
 		for (unsigned cs : { 8u, 10u }) aead_case(g, 9, 1 + (int)g.below(2), cs, ((size_t)64 << cs) + 1 + g.below(100), true, 0, 8);
@@ -775,8 +760,7 @@ static const char *vkind_name[] = { "data", "datalit", "standalone", "key", "key
 struct Lit { unsigned char format = 0x62; std::string filename; time_t timestamp = 0; };
 static bool sig_verify(TMCG_OpenPGP_Signature *sig, const TestKey &k, VKind kind, const Oct &a, const Oct &b, const Lit &lit, const std::string &tag)
 {
-	// an unknown hash algorithm leaves the digest empty and CheckIntegrity reads hash[0], hash[1] of the empty vector
-	// (see --emptyhash); such signatures are not handed to the verification routines here
+	// (an unknown hash algorithm leaves the digest empty: the quick check of CheckIntegrity refuses it)
 	hashlog.clear(); hashlog.log = true; pk_events.clear(); pk_log = true;
 	bool ok; std::string uid(b.begin(), b.end());
 	{ QuietCerr q;
@@ -816,7 +800,6 @@ struct PropCtx { const TestKey *k = NULL; int ver = 0, type = 0, hashalgo = 0; s
 static PropCtx g_pc;
 static void prop_ctx(const TestKey &k, int ver, int type, int hashalgo, size_t len) { g_pc = PropCtx(); g_pc.k = &k; g_pc.ver = ver; g_pc.type = type; g_pc.hashalgo = hashalgo; g_pc.len = len; }
 static void prop_sig_line(const TestKey &k, int ver, int type, int hashalgo, size_t len, const std::string &tag, bool ok, bool same);
-static bool g_emptyhash_probe = false;
 // parse + verify one signature packet against a target; `refused` covers a packet the parser drops;
 // same = the parsed signature has the fields of `orig` (a snapshot of the untouched one)
 static SigVerdict sig_case_inner(const Oct &sigpkt, const TestKey &k, VKind kind, const Oct &a, const Oct &b, const Lit &lit, const std::string &tag)
@@ -829,18 +812,6 @@ static SigVerdict sig_case_inner(const Oct &sigpkt, const TestKey &k, VKind kind
 	if (!g_pc.have_orig && tag.compare(0, 6, "honest") == 0) { g_pc.orig = snap; g_pc.have_orig = true; }
 	v.same = g_pc.have_orig && snap == g_pc.orig;
 	if (!sig->Good()) v.ok = false;
-	else if (!hash_supported(sig->hashalgo) && sig->version >= 3 && sig->version <= 5 && sig->left.size() == 2) {
-		// an unknown hash algorithm leaves the digest empty and CheckIntegrity reads hash[0], hash[1] of the empty vector:
-		// such signatures are not handed to the verification routines (--emptyhash runs one in a child process)
-		emit("prop.pgpmsg sig-emptyhash " + k.name + " hash=" + std::to_string((unsigned)sig->hashalgo) + " tag:" + tag + " => skipped");
-		if (g_emptyhash_probe) { g_emptyhash_probe = false; fflush(stdout); pid_t pid = fork();
-			if (pid == 0) { std::string u(b.begin(), b.end()); bool r = false;
-				switch (kind) { case V_DATA: r = sig->VerifyData(k.key, a, 0); break; case V_DATALIT: r = sig->VerifyData(k.key, a, lit.format, lit.filename, lit.timestamp, 0); break; case V_STANDALONE: r = sig->Verify(k.key, 0); break;
-					case V_KEY: r = sig->Verify(k.key, a, 0); break; case V_KEY2: r = sig->Verify(k.key, a, b, 0); break; case V_UID: r = sig->Verify(k.key, a, u, 0); break; default: r = sig->Verify(k.key, a, b, 0, 0); break; }
-				_exit(r ? 10 : 11); }
-			int st = 0; waitpid(pid, &st, 0);
-			emit("prop.pgpmsg sig-emptyhash-probe " + k.name + " hash=" + std::to_string((unsigned)sig->hashalgo) + " => " + (WIFSIGNALED(st) ? "signal " + std::to_string(WTERMSIG(st)) : "exit " + std::to_string(WEXITSTATUS(st)))); }
-		v.ok = false; }
 	else v.ok = sig_verify(sig, k, kind, a, b, lit, tag);
 	delete sig; return v;
 }
@@ -992,7 +963,6 @@ static void filehash_cases(SplitMix &g)
 static int drv_pgpmsg_sig(const Opts &o, SplitMix &g)
 {
 	bool thorough = o.tier == "thorough";
-	g_emptyhash_probe = o.has("--emptyhash");
 	std::vector<TestKey> keys;
 	keys.push_back(load_key("rsa", 1, KEY_RSA)); keys.push_back(load_key("dsa160", 17, KEY_DSA160)); keys.push_back(load_key("dsa256", 17, KEY_DSA256));
 	keys.push_back(load_key("ecdsa", 19, KEY_ECDSA)); keys.push_back(load_key("eddsa", 22, KEY_EDDSA));
@@ -1144,23 +1114,16 @@ static int drv_pgpmsg(const Opts &o)
 {
 	SplitMix g(o.seed ^ 0x7067706d7367ULL);
 	std::string part = o.val("--part", "all");
-	g_vla0_probe = false;
 	int rc = 0;
-	if (o.has("--vla0")) {
-		// all chunks verify and 32 octets are left: the last chunk's arrays get the length 0
-		SOct k = sec(Oct(32, 0x22)); Oct in(64 + 16, 0x42), iv, out, ad = aead_ad(9, 2, 0);
-		if (!PGP::SymmetricEncryptAEAD(in, k, TMCG_OPENPGP_SKALGO_AES256, TMCG_OPENPGP_AEADALGO_OCB, 0, ad, 0, iv, out)) {
-			Oct cut(out.begin(), out.end() - 16); fflush(stdout); pid_t pid = fork();
-			if (pid == 0) { Oct o2; gcry_error_t e = PGP::SymmetricDecryptAEAD(cut, k, TMCG_OPENPGP_SKALGO_AES256, TMCG_OPENPGP_AEADALGO_OCB, 0, iv, ad, 0, o2); _exit(e ? 11 : 10); }
-			int st = 0; waitpid(pid, &st, 0);
-			emit("prop.pgpmsg sym vla0-probe drop-final len=80 cs=0 => " + (WIFSIGNALED(st) ? "signal " + std::to_string(WTERMSIG(st)) : "exit " + std::to_string(WEXITSTATUS(st)))); }
-	}
-	if (o.has("--bigchunk")) {
-		// chunk size octet 17 (8 MiB chunks): SymmetricEncryptAEAD puts two chunk-sized arrays on the stack
-		fflush(stdout); pid_t pid = fork();
-		if (pid == 0) { Oct in(((size_t)64 << 17) + 10, 0x41), iv, out; SOct k = sec(Oct(32, 0x11)); gcry_error_t e = PGP::SymmetricEncryptAEAD(in, k, TMCG_OPENPGP_SKALGO_AES256, TMCG_OPENPGP_AEADALGO_OCB, 17, aead_ad(9, 2, 17), 0, iv, out); _exit(e ? 11 : 10); }
-		int st = 0; waitpid(pid, &st, 0);
-		emit("prop.pgpmsg sym bigchunk-probe cs=17 => " + (WIFSIGNALED(st) ? "signal " + std::to_string(WTERMSIG(st)) : "exit " + std::to_string(WEXITSTATUS(st))));
+	if (o.has("--bigchunk") || (o.tier == "thorough" && (part == "all" || part == "sym"))) {
+		// chunk size octet 17 (8 MiB chunks, two of them): encryption and decryption keep whole chunks in memory; verdicts only
+		Oct in(((size_t)64 << 17) + 10), iv, out, back, ad = aead_ad(9, 2, 17); for (size_t i = 0; i < in.size(); i += 4099) in[i] = (unsigned char)g.below(256);
+		SOct k = sec(rnd_octets(g, 32));
+		gcry_error_t e = PGP::SymmetricEncryptAEAD(in, k, TMCG_OPENPGP_SKALGO_AES256, TMCG_OPENPGP_AEADALGO_OCB, 17, ad, 0, iv, out);
+		gcry_error_t d = e ? e : PGP::SymmetricDecryptAEAD(out, k, TMCG_OPENPGP_SKALGO_AES256, TMCG_OPENPGP_AEADALGO_OCB, 17, iv, ad, 0, back);
+		prop_sym("aead", 9, "ocb", 17, in.size(), e ? "honest-enc-failed" : "honest:bigchunk", !e && !d, back == in);
+		if (!e) { Oct c = out; c[g.below(c.size())] ^= 0x04; Oct b2; gcry_error_t x = PGP::SymmetricDecryptAEAD(c, k, TMCG_OPENPGP_SKALGO_AES256, TMCG_OPENPGP_AEADALGO_OCB, 17, iv, ad, 0, b2); prop_sym("aead", 9, "ocb", 17, in.size(), "flip:ct:bigchunk", !x, b2 == in);
+			Oct c2(out.begin(), out.end() - 16); Oct b3; gcry_error_t y = PGP::SymmetricDecryptAEAD(c2, k, TMCG_OPENPGP_SKALGO_AES256, TMCG_OPENPGP_AEADALGO_OCB, 17, iv, ad, 0, b3); prop_sym("aead", 9, "ocb", 17, in.size(), "drop-final:bigchunk", !y, b3 == in); }
 	}
 	if (part == "all" || part == "sym") rc |= drv_pgpmsg_sym(o, g);
 	if (part == "all" || part == "sig") rc |= drv_pgpmsg_sig(o, g);
